@@ -116,6 +116,12 @@ NewChan(t) ==
    held |-> FALSE, senderAlive |-> FALSE, recvAlive |-> FALSE, reg |-> "none", chan |-> <<>>, nres |-> 0,
    fl |-> -1, tx |-> {t}]
 IsChan(q) == q.kind0 = "chan"
+\* a channel that belongs to the case, not to a command (a sender kept in an app's model): every task of every
+\* command may send on it or wait for it, and it never closes (ROOT holds a sender)
+GKey(g) == <<0, 0, 0 - g>>
+NGCH == 2
+\* the request table a case starts with: its case-wide channels, empty
+NoReqs == [k \in {GKey(g) : g \in 1..NGCH} |-> NewChan(ROOT)]
 
 \* n: position in the owning task's emission order (not observable in itself; fixes per-task order)
 EffItem(rid, tag, val, n) == [kind |-> "eff", o |-> rid, tag |-> tag, val |-> val, n |-> n]
@@ -359,11 +365,12 @@ LeavesOf(I) ==
     [] I.op = "next"  -> << [k |-> "next", s |-> I.s] >>
     [] I.op = "joinh" -> << [k |-> "joinh", h |-> I.h] >>
     [] I.op = "recv"  -> << [k |-> "recv", c |-> I.c] >>
+    [] I.op = "grecv" -> << [k |-> "grecv", g |-> I.g] >>
     [] OTHER          -> I.leaves        \* join / select
 
 ModeOf(I) == IF I.op = "select" THEN "any" ELSE "all"
 
-IsWait(I) == I.op \in {"req", "next", "joinh", "recv", "join", "select"}
+IsWait(I) == I.op \in {"req", "next", "joinh", "recv", "grecv", "join", "select"}
 
 \* number of inline request leaves strictly before position i
 RECURSIVE ReqsBefore(_, _)
@@ -377,6 +384,7 @@ InitLeaves(t, T, L) ==
      [rid  |-> CASE L[i].k = "req"  -> <<t[1], t[2], T.seq + ReqsBefore(L, i)>>
                  [] L[i].k = "next" -> T.streams[L[i].s].rid
                  [] L[i].k = "recv" -> T.chans[L[i].c]
+                 [] L[i].k = "grecv" -> GKey(L[i].g)
                  [] OTHER           -> NONE,
       done |-> FALSE, val |-> 0]]
 
@@ -387,7 +395,7 @@ LeafReady(S, T, L, ls, i) ==
     [] L[i].k = "next"  -> /\ ls[i].rid \in DOMAIN S.reqs
                            /\ \/ S.reqs[ls[i].rid].chan # <<>>
                               \/ ~S.reqs[ls[i].rid].senderAlive   \* closed and empty: yields None
-    [] L[i].k = "recv"  -> S.reqs[ls[i].rid].chan # <<>> \/ S.reqs[ls[i].rid].tx = {}
+    [] L[i].k \in {"recv", "grecv"} -> S.reqs[ls[i].rid].chan # <<>> \/ S.reqs[ls[i].rid].tx = {}
 LeafVal(S, L, ls, i) ==
   IF L[i].k = "joinh" THEN 0
   ELSE IF S.reqs[ls[i].rid].chan # <<>> THEN Head(S.reqs[ls[i].rid].chan) ELSE 0   \* 0 = None
@@ -444,7 +452,7 @@ ExecWait(S, t, I) ==
       \* existing requests touched by this poll
       R1 == [r \in DOMAIN S.reqs \cup ridsNew |->
               IF r \in ridsNew THEN newReq(idxOf(r))
-              ELSE IF \E i \in DOMAIN L : polled(i) /\ L[i].k \in {"req", "next", "recv"} /\ ls0[i].rid = r
+              ELSE IF \E i \in DOMAIN L : polled(i) /\ L[i].k \in {"req", "next", "recv", "grecv"} /\ ls0[i].rid = r
                    THEN LET q == S.reqs[r] IN
                         IF q.chan # <<>>
                         THEN [q EXCEPT !.chan = Tail(@),
@@ -487,7 +495,7 @@ ExecWait(S, t, I) ==
                     THEN [r \in 1..NREG |->
                             IF r = I.dst THEN ls1[win].val
                             ELSE IF r = I.idx THEN win ELSE T.regs[r]]
-                    ELSE IF I.op \in {"req", "next", "recv"}
+                    ELSE IF I.op \in {"req", "next", "recv", "grecv"}
                          THEN [T.regs EXCEPT ![I.dst] = ls1[1].val]
                          ELSE IF I.op = "joinh" THEN T.regs
                          ELSE [r \in 1..NREG |->
@@ -697,6 +705,9 @@ ExecInstrC(S, t, ch) ==
              v == IF Src(T, I.src) = 0 THEN 1 ELSE Src(T, I.src) IN
          IF k = NONE \/ t \notin S.reqs[k].tx THEN adv(S)
          ELSE adv(WakeOwner([S EXCEPT !.reqs[k].chan = Append(@, v)], k, NONE))
+    [] I.op = "gsend" ->
+         LET v == IF Src(T, I.src) = 0 THEN 1 ELSE Src(T, I.src) IN
+         adv(WakeOwner([S EXCEPT !.reqs[GKey(I.g)].chan = Append(@, v)], GKey(I.g), NONE))
     [] I.op = "closec" ->
          LET k == T.chans[I.c] IN
          IF k = NONE \/ t \notin S.reqs[k].tx THEN adv(S)
@@ -775,7 +786,7 @@ Put(S) == /\ cmds' = S.cmds /\ tasks' = S.tasks /\ ready' = S.ready
           /\ reqs' = S.reqs /\ joinreg' = S.joinreg /\ rq' = S.rq /\ sq' = S.sq
 
 Init ==
-  /\ cmds = <<>> /\ tasks = <<>> /\ ready = {} /\ run = NONE /\ reqs = <<>> /\ joinreg = <<>>
+  /\ cmds = <<>> /\ tasks = <<>> /\ ready = {} /\ run = NONE /\ reqs = NoReqs /\ joinreg = <<>>
   /\ rq = <<>> /\ sq = <<>>
 
 \* The outermost command of program c is created by whoever hosts it (pseudo task ROOT)
@@ -1036,7 +1047,7 @@ Compact(S, pinned) ==
   LET live == Live(S)
       KR == {r \in DOMAIN S.reqs :
                \/ S.reqs[r].held \/ r \in pinned \/ S.reqs[r].owner \in live
-               \/ (IsChan(S.reqs[r]) /\ \E t \in live : \E i \in 1..NCH : S.tasks[t].chans[i] = r)}
+               \/ (IsChan(S.reqs[r]) /\ (ROOT \in S.reqs[r].tx \/ \E t \in live : \E i \in 1..NCH : S.tasks[t].chans[i] = r))}
       KT == CloseHosts(S, live
                           \cup ({S.tasks[t].handles[i] : t \in live, i \in 1..NHND} \cap DOMAIN S.tasks)
                           \cup ({S.reqs[r].owner : r \in KR} \cap DOMAIN S.tasks))
